@@ -127,6 +127,15 @@ def selection_array(ctx) -> None:
     for n in stores:
         idx = fv.res.resolve(n.ast.targets[0].slice, n.id)
         loops = [h for h in fv.cfg.enclosing_loops(n.id) if fv.cfg.nodes[h].kind == "for"]
+        if isinstance(idx, ast.Tuple) and len(idx.elts) == 2 and all(is_sym(e_, "unpack") and isinstance(e_.args[1], ast.Constant) for e_ in idx.elts) \
+                and key(idx.elts[0].args[0]) == key(idx.elts[1].args[0]):
+            # row_index, column_index = index_map[well]; grid[row_index, column_index] = 1
+            order = [e_.args[1].value for e_ in idx.elts]
+            if order == [0, 1]:
+                idx = idx.elts[0].args[0]
+            elif order == [1, 0]:
+                ctx.rep.refuted(rule, f"{f.qualname}/lookup", "the (row, column) pair of the index map is used as (column, row) when the grid is marked: the selection is transposed", where=f.where(n.ast))
+                return
         if isinstance(idx, ast.Subscript) and call_fname(idx.value) == "make_well_index_dict" and loops:
             ep = elem_parts(idx.slice)
             it_ok = ep is not None and ep[0] == f"loop@{loops[-1]}" and is_name(strip_norm(ep[1]), W)
